@@ -235,7 +235,9 @@ def check(ctx: Ctx) -> list[RuleResult]:
                 st9 = c9
                 while not isinstance(st9, ast.stmt):
                     st9 = st9.parent  # type: ignore[attr-defined]
-                excluded = k is not ina and any(_ei9(t, v, g_) for t, v in _fa9(st9) for g_ in not_inactive)
+                from .common import expand as _ex9
+
+                excluded = k is not ina and any(_ei9(_ex9(m.node, t, pure_only=False), v, g_) for t, v in _fa9(st9) for g_ in not_inactive)
                 if mname == "connection_made" and k is ina:
                     r9.ok({"Inactive.connection_made": norm(c9)[:50]})
                 elif excluded:
